@@ -45,6 +45,18 @@ func (b *EventBox) Set(event EventType, value any) {
 	b.cond.L.Unlock()
 }
 
+// Update sets the event with the value the given function returns for the
+// value that is pending for the event (nil if there is none), so that a value
+// the receiver has not seen yet can be merged instead of being overwritten
+func (b *EventBox) Update(event EventType, update func(pending any) any) {
+	b.cond.L.Lock()
+	b.events[event] = update(b.events[event])
+	if _, found := b.ignore[event]; !found {
+		b.cond.Broadcast()
+	}
+	b.cond.L.Unlock()
+}
+
 // Clear clears the events
 // Unsynchronized; should be called within Wait routine
 func (events *Events) Clear() {
